@@ -15,58 +15,69 @@ Proof.
   rewrite <- (Unsigned.of_to a), <- (Unsigned.of_to c), H. reflexivity.
 Qed.
 
-Lemma uniq_loop_some : forall fuel base c g n, uniq_loop fuel base c g = Some n ->
-  exists d, c <= d /\ n = base ++ dec d /\ ~ In n (keys g) /\
-            forall e, c <= e < d -> In (base ++ dec e) (keys g).
+Lemma taken_In : forall g kk n, taken g kk n = true <-> In n (keys g ++ kk).
 Proof.
-  induction fuel as [|fuel IH]; intros base c g n H; cbn [uniq_loop] in H; [discriminate|].
-  destruct (has_key (base ++ dec c) g) eqn:E.
-  - apply IH in H. destruct H as (d & Hd & -> & Hn & Hall). exists d.
-    split; [lia|]. split; [reflexivity|]. split; [exact Hn|].
-    intros e He. destruct (N.eq_dec e c) as [->|Ne]; [apply has_key_In; exact E | apply Hall; lia].
-  - injection H as <-. exists c. split; [lia|]. split; [reflexivity|].
-    split; [apply has_key_false; exact E|]. intros e He. lia.
+  intros. unfold taken. rewrite orb_true_iff, has_key_In, memb_In, in_app_iff. tauto.
+Qed.
+Lemma taken_false : forall g kk n, taken g kk n = false <-> ~ In n (keys g ++ kk).
+Proof.
+  intros. rewrite <- taken_In. destruct (taken g kk n); split; intro H; try reflexivity; try discriminate; try congruence.
 Qed.
 
-Lemma uniq_loop_none : forall fuel base c g, uniq_loop fuel base c g = None ->
-  forall i, (i < fuel)%nat -> In (base ++ dec (c + N.of_nat i)) (keys g).
+Lemma uniq_loop_some : forall fuel base c g kk n, uniq_loop fuel base c g kk = Some n ->
+  exists d, c <= d /\ n = base ++ dec d /\ ~ In n (keys g ++ kk) /\
+            forall e, c <= e < d -> In (base ++ dec e) (keys g ++ kk).
 Proof.
-  induction fuel as [|fuel IH]; intros base c g H i Hi; [lia|]. cbn [uniq_loop] in H.
-  destruct (has_key (base ++ dec c) g) eqn:E; [|discriminate].
+  induction fuel as [|fuel IH]; intros base c g kk n H; cbn [uniq_loop] in H; [discriminate|].
+  destruct (taken g kk (base ++ dec c)) eqn:E.
+  - apply IH in H. destruct H as (d & Hd & -> & Hn & Hall). exists d.
+    split; [lia|]. split; [reflexivity|]. split; [exact Hn|].
+    intros e He. destruct (N.eq_dec e c) as [->|Ne]; [apply taken_In; exact E | apply Hall; lia].
+  - injection H as <-. exists c. split; [lia|]. split; [reflexivity|].
+    split; [apply taken_false; exact E|]. intros e He. lia.
+Qed.
+
+Lemma uniq_loop_none : forall fuel base c g kk, uniq_loop fuel base c g kk = None ->
+  forall i, (i < fuel)%nat -> In (base ++ dec (c + N.of_nat i)) (keys g ++ kk).
+Proof.
+  induction fuel as [|fuel IH]; intros base c g kk H i Hi; [lia|]. cbn [uniq_loop] in H.
+  destruct (taken g kk (base ++ dec c)) eqn:E; [|discriminate].
   destruct i as [|i].
-  - rewrite N.add_0_r. apply has_key_In. exact E.
+  - rewrite N.add_0_r. apply taken_In. exact E.
   - replace (c + N.of_nat (S i)) with ((c + 1) + N.of_nat i) by lia. apply IH; [exact H | lia].
 Qed.
 
-(** pigeonhole: |g|+1 pairwise different candidates cannot all be keys of g *)
-Lemma uniq_loop_terminates : forall base c (g : groups), uniq_loop (S (length g)) base c g <> None.
+(** pigeonhole: |g|+|kk|+1 pairwise different candidates cannot all be in use *)
+Lemma uniq_loop_terminates : forall base c (g : groups) kk,
+  uniq_loop (S (length g + length kk)) base c g kk <> None.
 Proof.
-  intros base c g H.
-  pose proof (uniq_loop_none _ _ _ _ H) as A.
+  intros base c g kk H.
+  pose proof (uniq_loop_none _ _ _ _ _ H) as A.
   set (f := fun i : nat => base ++ dec (c + N.of_nat i)).
-  assert (NoDup (map f (seq 0 (S (length g))))) as ND.
+  assert (NoDup (map f (seq 0 (S (length g + length kk))))) as ND.
   { apply Injective_map_NoDup; [|apply seq_NoDup].
     intros i j E. unfold f in E. apply app_inv_head in E. apply dec_inj in E. lia. }
-  assert (incl (map f (seq 0 (S (length g)))) (keys g)) as IN.
+  assert (incl (map f (seq 0 (S (length g + length kk)))) (keys g ++ kk)) as IN.
   { intros x I. apply in_map_iff in I. destruct I as (i & <- & I). apply in_seq in I. apply A. lia. }
   pose proof (NoDup_incl_length ND IN) as L.
-  rewrite map_length, seq_length in L. unfold keys in L. rewrite map_length in L. lia.
+  rewrite map_length, seq_length, app_length in L. unfold keys in L. rewrite map_length in L. lia.
 Qed.
 
-Theorem make_unique_spec : forall base g, exists n, make_unique base g = Some n /\ UniqueOf base g n.
+Theorem make_unique_spec : forall base g kk,
+  exists n, make_unique base g kk = Some n /\ UniqueOf base (keys g ++ kk) n.
 Proof.
-  intros base g. unfold make_unique, make_unique_fuel, UniqueOf. fold (keys g).
-  destruct (has_key base g) eqn:E.
-  - destruct (uniq_loop (S (length g)) base 1 g) as [n|] eqn:U.
+  intros base g kk. unfold make_unique, make_unique_fuel, UniqueOf.
+  destruct (taken g kk base) eqn:E.
+  - destruct (uniq_loop (S (length g + length kk)) base 1 g kk) as [n|] eqn:U.
     + exists n. split; [reflexivity|]. apply uniq_loop_some in U. destruct U as (d & Hd & -> & Hn & Hall).
-      split; [exact Hn|]. right. split; [apply has_key_In; exact E|]. exists d. auto.
-    + exfalso. exact (uniq_loop_terminates _ _ _ U).
-  - exists base. split; [reflexivity|]. split; [apply has_key_false; exact E | left; reflexivity].
+      split; [exact Hn|]. right. split; [apply taken_In; exact E|]. exists d. auto.
+    + exfalso. exact (uniq_loop_terminates _ _ _ _ U).
+  - exists base. split; [reflexivity|]. split; [apply taken_false; exact E | left; reflexivity].
 Qed.
 
-Lemma UniqueOf_prefix : forall pre s g n, UniqueOf (pre ++ s) g n -> starts_with pre n = true.
+Lemma UniqueOf_prefix : forall pre s used n, UniqueOf (pre ++ s) used n -> starts_with pre n = true.
 Proof.
-  intros pre s g n (_ & [->|(_ & d & _ & -> & _)]); [apply starts_with_app | apply starts_with_app_assoc].
+  intros pre s used n (_ & [->|(_ & d & _ & -> & _)]); [apply starts_with_app | apply starts_with_app_assoc].
 Qed.
 
 (** * sorted sets *)
@@ -197,11 +208,12 @@ Proof. intros g k gs c H. apply cands2_spec in H. destruct H as [H _]. exact H. 
 (** * duplicating the groups of one side *)
 Section DupSide.
 Variables pre pat : str.
+Variable kk : list name.
 
 Definition Inv (g0 gn : groups) (r : rentab) : Prop :=
   (forall n ms, lookup n gn = Some ms <->
                 lookup n g0 = Some ms \/ exists c, In (c, n) r /\ lookup c g0 = Some ms) /\
-  (forall c n, In (c, n) r -> starts_with pre n = true /\ ~ In n (keys g0) /\ In c (keys g0)) /\
+  (forall c n, In (c, n) r -> starts_with pre n = true /\ ~ In n (keys g0) /\ In c (keys g0) /\ ~ In n kk) /\
   NoDup (map snd r) /\ NoDup (keys r).
 
 Lemma Inv_keys_sub : forall g0 gn r n, Inv g0 gn r -> In n (keys g0) -> In n (keys gn).
@@ -211,7 +223,7 @@ Proof.
 Qed.
 Lemma Inv_img_sub : forall g0 gn r c n, Inv g0 gn r -> In (c, n) r -> In n (keys gn).
 Proof.
-  intros g0 gn r c n (L & F & _) I. destruct (F c n I) as (_ & _ & Ic).
+  intros g0 gn r c n (L & F & _) I. destruct (F c n I) as (_ & _ & Ic & _).
   apply lookup_key in Ic. destruct Ic as [ms Ic]. apply lookup_key. exists ms. apply L. right.
   exists c. split; assumption.
 Qed.
@@ -219,20 +231,22 @@ Qed.
 Lemma dup_side_spec : forall cs g0 gn r,
   Inv g0 gn r -> (forall c, In c cs -> In c (keys g0)) -> NoDup cs ->
   (forall c, In c cs -> ~ In c (keys r)) ->
-  exists gn' r', dup_side pre pat cs gn r = Ok (gn', r') /\ Inv g0 gn' r' /\
+  exists gn' r', dup_side pre pat kk cs gn r = Ok (gn', r') /\ Inv g0 gn' r' /\
                  keys r' = rev cs ++ keys r.
 Proof.
   induction cs as [|c cs IH]; intros g0 gn r I Sub ND Fr.
   - exists gn, r. cbn [dup_side rev app]. auto.
   - cbn [dup_side].
-    destruct (make_unique_spec (pre ++ remove_all pat c) gn) as (nn & MU & U). rewrite MU.
+    destruct (make_unique_spec (pre ++ remove_all pat c) gn kk) as (nn & MU & U). rewrite MU.
     assert (In c (keys g0)) as Ic by (apply Sub; left; reflexivity).
     destruct (proj2 (lookup_key _ c g0) Ic) as [ms Lc0].
     pose proof I as (L & F & N1 & N2).
     assert (lookup c gn = Some ms) as Lc by (apply L; left; exact Lc0). rewrite Lc.
     destruct U as [Unn Ushape].
-    assert (starts_with pre nn = true) as Pnn by (apply (UniqueOf_prefix pre (remove_all pat c) gn nn); split; assumption).
-    fold (keys gn) in Unn.
+    assert (starts_with pre nn = true) as Pnn by (apply (UniqueOf_prefix pre (remove_all pat c) (keys gn ++ kk) nn); split; assumption).
+    assert (~ In nn kk) as Ukk by (intro H; apply Unn; apply in_or_app; right; exact H).
+    assert (~ In nn (keys gn)) as Unn' by (intro H; apply Unn; apply in_or_app; left; exact H).
+    clear Unn. rename Unn' into Unn.
     assert (Inv g0 (minsert nn ms gn) ((c, nn) :: r)) as I2.
     { split; [|split; [|split]].
       - intros n ms'. destruct (str_eq_dec n nn) as [->|Ne].
@@ -246,7 +260,7 @@ Proof.
           * intros [H | (c' & Ir & Lc')]; [left; exact H | right; exists c'; split; [right; exact Ir | exact Lc']].
           * intros [H | (c' & [E|Ir] & Lc')]; [left; exact H | injection E as <- <-; contradiction | right; exists c'; split; assumption].
       - intros c' n' [E|Ir].
-        + injection E as <- <-. split; [exact Pnn|]. split; [|exact Ic].
+        + injection E as <- <-. split; [exact Pnn|]. split; [|split; [exact Ic | exact Ukk]].
           intro H. apply Unn. exact (Inv_keys_sub g0 gn r nn I H).
         + exact (F c' n' Ir).
       - cbn [map snd]. constructor; [|exact N1]. intro H. apply in_map_iff in H.
@@ -263,28 +277,35 @@ Proof.
 Qed.
 End DupSide.
 
-Lemma Inv_init : forall pre g, Inv pre g g [].
+Lemma Inv_init : forall pre kk g, Inv pre kk g g [].
 Proof.
-  intros pre g. split; [|split; [|split]].
+  intros pre kk g. split; [|split; [|split]].
   - intros n ms. split; [intro H; left; exact H | intros [H|(c & [] & _)]; exact H].
   - intros c n [].
   - constructor.
   - constructor.
 Qed.
 
+(** the new names avoid the kerning keys of their side (3ac97c0) *)
+Definition TablesFresh (k : kerning) (r1 r2 : rentab) : Prop :=
+  (forall c n, In (c, n) r1 -> ~ In n (kerning_firsts k)) /\
+  (forall c n, In (c, n) r2 -> ~ In n (kerning_seconds k)).
+
 Theorem upconvert_tables_spec : forall g k gs,
-  exists g2 r1 r2, upconvert_tables g k gs = Ok (g2, r1, r2) /\ UpconvertedGroups g k gs r1 r2 g2.
+  exists g2 r1 r2, upconvert_tables g k gs = Ok (g2, r1, r2) /\ UpconvertedGroups g k gs r1 r2 g2 /\
+                   TablesFresh k r1 r2.
 Proof.
   intros g k gs. unfold upconvert_tables.
-  destruct (dup_side_spec K1 MMKL (cands1 g k gs) g g [] (Inv_init K1 g)) as (g1 & r1 & D1 & I1 & Ks1).
+  destruct (dup_side_spec K1 MMKL (kerning_firsts k) (cands1 g k gs) g g [] (Inv_init K1 _ g)) as (g1 & r1 & D1 & I1 & Ks1).
   { apply cands1_keys. } { apply cands1_NoDup. } { intros c _ []. }
   rewrite D1.
-  destruct (dup_side_spec K2 MMKR (cands2 g k gs) g1 g1 [] (Inv_init K2 g1)) as (g2 & r2 & D2 & I2 & Ks2).
-  { intros c Ic. apply (Inv_keys_sub K1 g g1 r1 c I1). exact (cands2_keys g k gs c Ic). }
+  destruct (dup_side_spec K2 MMKR (kerning_seconds k) (cands2 g k gs) g1 g1 [] (Inv_init K2 _ g1)) as (g2 & r2 & D2 & I2 & Ks2).
+  { intros c Ic. apply (Inv_keys_sub K1 _ g g1 r1 c I1). exact (cands2_keys g k gs c Ic). }
   { apply cands2_NoDup. } { intros c _ []. }
   rewrite D2. exists g2, r1, r2. split; [reflexivity|].
   cbn [keys map app] in Ks1, Ks2. rewrite app_nil_r in Ks1, Ks2.
   pose proof I1 as (L1 & F1 & Nn1 & No1). pose proof I2 as (L2 & F2 & Nn2 & No2).
+  split; [|split; [intros c n Ir; exact (proj2 (proj2 (proj2 (F1 c n Ir)))) | intros c n Ir; exact (proj2 (proj2 (proj2 (F2 c n Ir))))]].
   assert (forall c n, In (c, n) r2 -> In c (keys g)) as R2g.
   { intros c n Ir. apply (cands2_keys g k gs). apply in_rev. rewrite <- Ks2.
     change (In (fst (c, n)) (map fst r2)). apply in_map. exact Ir. }
@@ -296,10 +317,10 @@ Proof.
   - apply NoDup_app_iff. split; [exact Nn1|]. split; [exact Nn2|].
     intros x Ix1 Ix2. apply in_map_iff in Ix1. destruct Ix1 as ([c1 n1] & E1 & Ir1).
     apply in_map_iff in Ix2. destruct Ix2 as ([c2 n2] & E2 & Ir2). cbn [snd] in E1, E2. subst n1 n2.
-    destruct (F2 c2 x Ir2) as (_ & Hn & _). apply Hn. exact (Inv_img_sub K1 g g1 r1 c1 x I1 Ir1).
+    destruct (F2 c2 x Ir2) as (_ & Hn & _). apply Hn. exact (Inv_img_sub K1 _ g g1 r1 c1 x I1 Ir1).
   - intros c n Ir. destruct (F1 c n Ir) as (P & Hn & _). split; [apply side1_spec; exact P | exact Hn].
   - intros c n Ir. destruct (F2 c n Ir) as (P & Hn & _). split; [apply side2_spec; exact P|].
-    intro H. apply Hn. exact (Inv_keys_sub K1 g g1 r1 n I1 H).
+    intro H. apply Hn. exact (Inv_keys_sub K1 _ g g1 r1 n I1 H).
   - intros n ms. rewrite L2. split.
     + intros [H | (c & Ir & Lc)].
       * apply L1 in H. destruct H as [H | (c & Ir & Lc)]; [left; exact H|].
@@ -401,6 +422,50 @@ Proof.
 Qed.
 
 (** * the conversion as a whole *)
+Lemma snd_inj_NoDup : forall (r : rentab) a c n,
+  NoDup (map snd r) -> In (a, n) r -> In (c, n) r -> a = c.
+Proof.
+  induction r as [|[x y] r IH]; intros a c n ND Ia Ic; [destruct Ia|].
+  cbn [map snd] in ND. inversion ND as [|? ? Hn Hd]; subst.
+  destruct Ia as [Ea|Ia]; destruct Ic as [Ec|Ic].
+  - congruence.
+  - injection Ea as -> ->. exfalso. apply Hn. change (In (snd (c, n)) (map snd r)). apply in_map. exact Ic.
+  - injection Ec as -> ->. exfalso. apply Hn. change (In (snd (a, n)) (map snd r)). apply in_map. exact Ia.
+  - exact (IH a c n Hd Ia Ic).
+Qed.
+
+(** renaming through a table with distinct new names that avoid the list keeps it duplicate-free *)
+Lemma ren_NoDup : forall (r : rentab) l,
+  NoDup l -> NoDup (map snd r) -> (forall c n, In (c, n) r -> ~ In n l) -> NoDup (map (ren r) l).
+Proof.
+  intros r l NDl NDr Fr.
+  assert (forall a c, In a l -> In c l -> ren r a = ren r c -> a = c) as Inj.
+  { intros a c Ia Ic E. unfold ren in E.
+    destruct (lookup a r) as [n|] eqn:La; destruct (lookup c r) as [n'|] eqn:Lc.
+    - subst n'. apply lookup_Some_In in La, Lc. exact (snd_inj_NoDup r a c n NDr La Lc).
+    - subst n. apply lookup_Some_In in La. exfalso. exact (Fr a c La Ic).
+    - subst n'. apply lookup_Some_In in Lc. exfalso. exact (Fr c a Lc Ia).
+    - exact E. }
+  clear Fr NDr. induction l as [|x l IH]; cbn [map]; [constructor|].
+  inversion NDl as [|? ? Hn Hd]; subst. constructor.
+  - intro I. apply in_map_iff in I. destruct I as (y & E & Iy).
+    assert (y = x) as -> by (apply Inj; [right; exact Iy | left; reflexivity | exact E]). contradiction.
+  - apply IH; [exact Hd|]. intros a c Ia Ic. apply Inj; right; assumption.
+Qed.
+
+Lemma no_collision : forall g k gs r1 r2 g',
+  wf_kerning k -> UpconvertedGroups g k gs r1 r2 g' -> TablesFresh k r1 r2 ->
+  no_pair_collision r1 r2 k = true.
+Proof.
+  intros g k gs r1 r2 g' [WK WR] (_ & _ & _ & _ & ND & _) [F1 F2].
+  apply NoDup_app_iff in ND. destruct ND as (N1 & N2 & _).
+  unfold no_pair_collision. apply andb_true_iff. split.
+  - apply nodupb_spec. apply ren_NoDup; [exact WK | exact N1 | exact F1].
+  - apply forallb_forall. intros e Ie. apply nodupb_spec. apply ren_NoDup; [exact (WR e Ie) | exact N2|].
+    intros c n Ir I. apply (F2 c n Ir). unfold kerning_seconds. apply in_concat. exists (keys (snd e)).
+    split; [apply in_map_iff; exists e; auto | exact I].
+Qed.
+
 Theorem upconvert_total : forall g k gs, exists g' k', upconvert_kerning g k gs = Ok (g', k').
 Proof.
   intros g k gs. unfold upconvert_kerning.
@@ -410,74 +475,40 @@ Qed.
 Theorem upconvert_groups_meet_spec : forall g k gs g' k',
   upconvert_kerning g k gs = Ok (g', k') ->
   exists r1 r2, upconvert_tables g k gs = Ok (g', r1, r2) /\ k' = rename_kerning r1 r2 k /\
-                UpconvertedGroups g k gs r1 r2 g'.
+                UpconvertedGroups g k gs r1 r2 g' /\ TablesFresh k r1 r2.
 Proof.
   intros g k gs g' k' H. unfold upconvert_kerning in H.
-  destruct (upconvert_tables_spec g k gs) as (g2 & r1 & r2 & T & U). rewrite T in H.
+  destruct (upconvert_tables_spec g k gs) as (g2 & r1 & r2 & T & U & F). rewrite T in H.
   injection H as <- <-. exists r1, r2. auto.
 Qed.
 
 Theorem upconvert_meets_spec : forall g k gs g' k',
-  upconvert_kerning g k gs = Ok (g', k') -> ~ PairCollision g k gs -> Upconverted g k gs g' k'.
+  wf_kerning k -> upconvert_kerning g k gs = Ok (g', k') -> Upconverted g k gs g' k'.
 Proof.
-  intros g k gs g' k' H NC. destruct (upconvert_groups_meet_spec g k gs g' k' H) as (r1 & r2 & T & -> & U).
-  exists r1, r2. split; [exact U|]. apply pairs_renamed.
-  unfold PairCollision in NC. rewrite T in NC. destruct (no_pair_collision r1 r2 k); [reflexivity | exfalso; apply NC; reflexivity].
-Qed.
-
-(** the relation depends on the name set only through the groups to duplicate *)
-Lemma inclb_spec : forall l1 l2, inclb l1 l2 = true <-> incl l1 l2.
-Proof.
-  intros. unfold inclb, incl. rewrite forallb_forall. split; intros H c I; [apply memb_In | apply memb_In]; apply H; exact I.
-Qed.
-Lemma same_candsb_spec : forall g k a b, same_candsb g k a b = true <-> SameCands g k a b.
-Proof.
-  intros. unfold same_candsb, SameCands. rewrite !andb_true_iff, !inclb_spec. unfold incl.
-  split.
-  - intros (((A & B) & C) & D). split; intro c; rewrite <- ?cands1_spec, <- ?cands2_spec; split; auto.
-  - intros (E1 & E2). repeat split; intros c I.
-    + apply cands1_spec, E1, cands1_spec. exact I.
-    + apply cands1_spec, E1, cands1_spec. exact I.
-    + apply cands2_spec, E2, cands2_spec. exact I.
-    + apply cands2_spec, E2, cands2_spec. exact I.
-Qed.
-Lemma not_ClassF21 : forall g k a b, ~ ClassF21 g k a b -> SameCands g k a b.
-Proof.
-  intros g k a b H. destruct (same_candsb g k a b) eqn:E; [apply same_candsb_spec; exact E|].
-  exfalso. apply H. intro S. apply same_candsb_spec in S. congruence.
-Qed.
-
-Lemma Upconverted_glyphs : forall g k gs glyphs g' k',
-  Upconverted g k gs g' k' -> ~ ClassF21 g k gs glyphs -> Upconverted g k glyphs g' k'.
-Proof.
-  intros g k gs glyphs g' k' (r1 & r2 & U & P) NF. exists r1, r2. split; [|exact P].
-  apply not_ClassF21 in NF. destruct NF as [E1 E2].
-  destruct U as (U1 & U2 & U3). split; [|split].
-  - intro c. rewrite U1. apply E1.
-  - intro c. rewrite U2. apply E2.
-  - exact U3.
+  intros g k gs g' k' W H. destruct (upconvert_groups_meet_spec g k gs g' k' H) as (r1 & r2 & T & -> & U & F).
+  exists r1, r2. split; [exact U|]. apply pairs_renamed. exact (no_collision g k gs r1 r2 g' W U F).
 Qed.
 
 (** * call sites *)
-Lemma load_some_inv : forall v3 g k interned g' k',
-  load_gk v3 (Some g) k interned = Ok (g', k') ->
+Lemma load_some_inv : forall v3 g k glyphs g' k',
+  load_gk v3 (Some g) k glyphs = Ok (g', k') ->
   validate_groups g = Ok tt /\
   ((v3 = true /\ g' = g /\ k' = kern_or_empty k) \/
-   (v3 = false /\ upconvert_kerning g (kern_or_empty k) interned = Ok (g', k') /\
+   (v3 = false /\ upconvert_kerning g (kern_or_empty k) glyphs = Ok (g', k') /\
     validate_groups g' = Ok tt)).
 Proof.
-  intros v3 g k interned g' k' H. unfold load_gk in H.
+  intros v3 g k glyphs g' k' H. unfold load_gk in H.
   destruct (validate_groups g) as [[]|e|s] eqn:V; try discriminate. split; [reflexivity|].
   destruct v3.
   - injection H as <- <-. left. auto.
-  - right. destruct (upconvert_kerning g (kern_or_empty k) interned) as [[g2 k2]|e|s] eqn:U; try discriminate.
+  - right. destruct (upconvert_kerning g (kern_or_empty k) glyphs) as [[g2 k2]|e|s] eqn:U; try discriminate.
     destruct (validate_groups g2) as [[]|e|s] eqn:V2; try discriminate. injection H as <- <-. auto.
 Qed.
 
-Theorem load_only_ok : forall v3 g k interned g' k',
-  load_gk v3 g k interned = Ok (g', k') -> groups_ok g' /\ (forall g0, g = Some g0 -> groups_ok g0).
+Theorem load_only_ok : forall v3 g k glyphs g' k',
+  load_gk v3 g k glyphs = Ok (g', k') -> groups_ok g' /\ (forall g0, g = Some g0 -> groups_ok g0).
 Proof.
-  intros v3 [g|] k interned g' k' H.
+  intros v3 [g|] k glyphs g' k' H.
   - apply load_some_inv in H. destruct H as (V & [(_ & -> & _) | (_ & _ & V2)]).
     + apply validate_iff in V. split; [exact V | intros g0 E; injection E as <-; exact V].
     + apply validate_iff in V. apply validate_iff in V2. split; [exact V2 | intros g0 E; injection E as <-; exact V].
@@ -485,120 +516,96 @@ Proof.
     apply validate_iff. reflexivity.
 Qed.
 
-Theorem load_v3_iff : forall g k interned,
-  groups_ok g <-> load_gk true (Some g) k interned = Ok (g, kern_or_empty k).
+Theorem load_v3_iff : forall g k glyphs,
+  groups_ok g <-> load_gk true (Some g) k glyphs = Ok (g, kern_or_empty k).
 Proof.
-  intros g k interned. rewrite <- validate_iff. unfold load_gk. split.
+  intros g k glyphs. rewrite <- validate_iff. unfold load_gk. split.
   - intros ->. reflexivity.
   - destruct (validate_groups g) as [[]|e|s]; [reflexivity | discriminate | discriminate].
 Qed.
 
-Theorem load_no_groups : forall v3 k interned, load_gk v3 None k interned = Ok ([], kern_or_empty k).
+Theorem load_no_groups : forall v3 k glyphs, load_gk v3 None k glyphs = Ok ([], kern_or_empty k).
 Proof. reflexivity. Qed.
 
 (** valid legacy groups are refused only when the converted groups are invalid *)
-Theorem load_legacy_accepts : forall g k interned,
+Theorem load_legacy_accepts : forall g k glyphs,
   groups_ok g ->
-  exists g' k', upconvert_kerning g (kern_or_empty k) interned = Ok (g', k') /\
-    ((groups_ok g' /\ load_gk false (Some g) k interned = Ok (g', k')) \/
-     (~ groups_ok g' /\ exists e, load_gk false (Some g) k interned = Err (LUpconversionFailure e))).
+  exists g' k', upconvert_kerning g (kern_or_empty k) glyphs = Ok (g', k') /\
+    ((groups_ok g' /\ load_gk false (Some g) k glyphs = Ok (g', k')) \/
+     (~ groups_ok g' /\ exists e, load_gk false (Some g) k glyphs = Err (LUpconversionFailure e))).
 Proof.
-  intros g k interned V. apply validate_iff in V.
-  destruct (upconvert_total g (kern_or_empty k) interned) as (g' & k' & U). exists g', k'. split; [exact U|].
+  intros g k glyphs V. apply validate_iff in V.
+  destruct (upconvert_total g (kern_or_empty k) glyphs) as (g' & k' & U). exists g', k'. split; [exact U|].
   unfold load_gk. rewrite V, U. destruct (validate_result g') as [V2|[e V2]]; rewrite V2.
   - left. split; [apply validate_iff; exact V2 | reflexivity].
   - right. split; [intro H; apply validate_iff in H; congruence | exists e; reflexivity].
 Qed.
 
-Theorem load_refuses_invalid : forall v3 g k interned,
-  ~ groups_ok g -> exists e, load_gk v3 (Some g) k interned = Err (LInvalidGroups e).
+Theorem load_refuses_invalid : forall v3 g k glyphs,
+  ~ groups_ok g -> exists e, load_gk v3 (Some g) k glyphs = Err (LInvalidGroups e).
 Proof.
-  intros v3 g k interned H. unfold load_gk. destruct (validate_result g) as [V|[e V]].
+  intros v3 g k glyphs H. unfold load_gk. destruct (validate_result g) as [V|[e V]].
   - exfalso. apply H. apply validate_iff. exact V.
   - rewrite V. exists e. reflexivity.
 Qed.
 
-Theorem load_no_panic : forall v3 g k interned s, load_gk v3 g k interned <> Panic s.
+Theorem load_no_panic : forall v3 g k glyphs s, load_gk v3 g k glyphs <> Panic s.
 Proof.
-  intros v3 [g|] k interned s; [|discriminate]. unfold load_gk.
+  intros v3 [g|] k glyphs s; [|discriminate]. unfold load_gk.
   destruct (validate_result g) as [V|[e V]]; rewrite V; [|discriminate].
   destruct v3; [discriminate|].
-  destruct (upconvert_total g (kern_or_empty k) interned) as (g' & k' & U). rewrite U.
+  destruct (upconvert_total g (kern_or_empty k) glyphs) as (g' & k' & U). rewrite U.
   destruct (validate_result g') as [V2|[e V2]]; rewrite V2; discriminate.
 Qed.
 
-Theorem load_legacy_spec : forall g k interned glyphs g' k',
-  load_gk false (Some g) k interned = Ok (g', k') ->
-  ~ ClassF21 g (kern_or_empty k) interned glyphs ->
-  ~ PairCollision g (kern_or_empty k) interned ->
+Theorem load_legacy_spec : forall g k glyphs g' k',
+  wf_kerning (kern_or_empty k) ->
+  load_gk false (Some g) k glyphs = Ok (g', k') ->
   Upconverted g (kern_or_empty k) glyphs g' k'.
 Proof.
-  intros g k interned glyphs g' k' H NF NP. apply load_some_inv in H.
+  intros g k glyphs g' k' W H. apply load_some_inv in H.
   destruct H as (_ & [(E & _) | (_ & U & _)]); [discriminate|].
-  apply (Upconverted_glyphs g (kern_or_empty k) interned glyphs); [|exact NF].
   apply upconvert_meets_spec; assumption.
 Qed.
 
-(** * the two refutations *)
+(** * the witnesses of the two repaired defects, kept as regression inputs *)
 Definition nA : name := [65].   (* "A" *)
 Definition nG : name := [71].   (* "G" *)
 Definition nx : name := [120].
 Definition ny : name := [121].
 Definition na : name := [97].
 
-(** PairCollision: group A, kerning rows A and public.kern1.A (not a group) *)
+(** formerly PairCollision: group A, kerning rows A and public.kern1.A (not a group); the new
+    name now avoids the kerning key and both pairs survive *)
 Definition pc_groups : groups := [(nA, [nx])].
 Definition pc_kerning : kerning := [(nA, [(ny, 1)]); (K1 ++ nA, [(ny, 2)])].
-
 Lemma pc_result : load_gk false (Some pc_groups) (Some pc_kerning) [] =
-                  Ok ([(nA, [nx]); (K1 ++ nA, [nx])], [(K1 ++ nA, [(ny, 2)])]).
+                  Ok ([(nA, [nx]); (K1 ++ nA ++ [49], [nx])],
+                      [(K1 ++ nA, [(ny, 2)]); (K1 ++ nA ++ [49], [(ny, 1)])]).
 Proof. vm_compute. reflexivity. Qed.
-
-Lemma pc_in_class : PairCollision pc_groups pc_kerning [].
-Proof. vm_compute. reflexivity. Qed.
-
-Lemma pc_not_upconverted :
-  ~ Upconverted pc_groups pc_kerning [] [(nA, [nx]); (K1 ++ nA, [nx])] [(K1 ++ nA, [(ny, 2)])].
+Lemma pc_wf : wf_kerning pc_kerning.
 Proof.
-  intros (r1 & r2 & _ & (P & _)).
-  assert (pair_in pc_kerning nA ny 1) as PI.
-  { exists [(ny, 1)]. split; vm_compute; reflexivity. }
-  destruct (proj2 (P (ren r1 nA) (ren r2 ny) 1)) as (row & La & Lb).
-  { exists nA, ny. auto. }
-  cbn [lookup] in La. destruct (str_eqb (ren r1 nA) (K1 ++ nA)); [|discriminate].
-  injection La as <-. cbn [lookup] in Lb. destruct (str_eqb (ren r2 ny) ny); discriminate.
+  split.
+  - apply nodupb_spec. vm_compute. reflexivity.
+  - intros e [<-|[<-|[]]]; apply nodupb_spec; vm_compute; reflexivity.
 Qed.
 
-(** F21: group G used on the first side; no glyph is called G but the interner holds G *)
+(** formerly F21: group G used on the first side; no glyph is called G (the interner used to
+    hold G as a component base); G is converted now *)
 Definition f21_groups : groups := [(nG, [nx])].
 Definition f21_kerning : kerning := [(nG, [(ny, 5)])].
-
-Lemma f21_result : load_gk false (Some f21_groups) (Some f21_kerning) [nG; na] = Ok (f21_groups, f21_kerning).
+Lemma f21_result : load_gk false (Some f21_groups) (Some f21_kerning) [na] =
+                   Ok ([(nG, [nx]); (K1 ++ nG, [nx])], [(K1 ++ nG, [(ny, 5)])]).
 Proof. vm_compute. reflexivity. Qed.
-
-Lemma f21_in_class : ClassF21 f21_groups f21_kerning [nG; na] [na].
+Lemma f21_wf : wf_kerning f21_kerning.
 Proof.
-  intros [E1 _]. assert (Cand1 f21_groups f21_kerning [na] nG) as C.
-  { split; [left; reflexivity|]. right. split; [left; reflexivity|]. split.
-    - intros [E|[]]. discriminate.
-    - intro S. apply side1_spec in S. vm_compute in S. discriminate. }
-  apply E1 in C. destruct C as [_ [[t E]|(_ & Hn & _)]]; [discriminate|]. apply Hn. left. reflexivity.
+  split.
+  - apply nodupb_spec. vm_compute. reflexivity.
+  - intros e [<-|[]]; apply nodupb_spec; vm_compute; reflexivity.
 Qed.
 
-Lemma f21_not_upconverted : ~ Upconverted f21_groups f21_kerning [na] f21_groups f21_kerning.
-Proof.
-  intros (r1 & r2 & (U1 & _ & _ & _ & _ & F1 & _ & L) & _).
-  assert (In nG (keys r1)) as I.
-  { apply U1. split; [left; reflexivity|]. right. split; [left; reflexivity|]. split.
-    - intros [E|[]]. discriminate.
-    - intro S. apply side1_spec in S. vm_compute in S. discriminate. }
-  apply in_map_iff in I. destruct I as ([c n] & E & I). cbn [fst] in E. subst c.
-  destruct (F1 nG n I) as (_ & Hn). apply Hn. unfold is_key. apply lookup_key. exists [nx].
-  apply L. right. exists nG. split; [apply in_or_app; left; exact I | reflexivity].
-Qed.
-
-(** * even inside the class PairCollision nothing is invented: every pair of the result is a
-    renamed pair of the input with the same value (pairs can only be lost) *)
+(** * for any association list (even one with duplicate keys) nothing is invented: every pair
+    of the result is a renamed pair of the input with the same value *)
 Lemma lookup_fold_sound : forall (E V : Type) (kf : E -> name) (vf : E -> V) l acc x v,
   lookup x (fold_left (fun a e => minsert (kf e) (vf e) a) l acc) = Some v ->
   (exists e, In e l /\ kf e = x /\ vf e = v) \/ lookup x acc = Some v.
